@@ -11,6 +11,17 @@ import pickle
 from . import par
 
 
+_TOKENS = __import__("itertools").count()
+
+
+def unique_token():
+    """A canonical form that merges with nothing (used when a driver cannot
+    read the internals it normally merges on, e.g. after a refactoring of
+    dclab): ids of live objects may be re-used, a counter is not."""
+    import os
+    return ("unmerged", os.getpid(), next(_TOKENS))
+
+
 class Driver:
     """Interface a property driver implements."""
     name = "driver"
